@@ -15,7 +15,7 @@ C=corpus/$ID-$$; A=artifacts/$ID-$$
 rm -rf "$C" "$A"; mkdir -p "$C" "$A"
 (cd .. && VERIF_SEED=$SEED $BIN gen-corpus fuzz/$C 12)
 t0=$(date +%s)
-VERIF_FUZZ_PROP=$ID cargo +nightly fuzz run prop "$C" -- -seed=$SEED -max_total_time=$SECS -len_control=0 -max_len=2048 -fork=8 -ignore_crashes=0 -artifact_prefix=$A/ > ../target/fuzz_$ID.log 2>&1
+VERIF_FUZZ_PROP=$ID cargo +nightly fuzz run prop "$C" -- -seed=$SEED -max_total_time=$SECS -len_control=0 -max_len=2048 -fork=8 -timeout=120 -ignore_crashes=0 -artifact_prefix=$A/ > ../target/fuzz_$ID.log 2>&1
 t1=$(date +%s)
 execs=$(grep -oE "#[0-9]+: cov" ../target/fuzz_$ID.log | tail -1 | grep -oE "[0-9]+")
 cov=$(grep -oE "cov: [0-9]+" ../target/fuzz_$ID.log | tail -1 | grep -oE "[0-9]+")
@@ -23,7 +23,11 @@ units=$(ls "$C" | wc -l)
 rc=0
 for f in "$A"/crash-* "$A"/timeout-* "$A"/oom-*; do
     [ -e "$f" ] || continue
-    (cd .. && $BIN $ID --fuzz-artifact fuzz/$f) || rc=1
+    # a unit that exceeded libFuzzer's per-input limit is replayed under a limit of its own: if the
+    # replay does not finish either, the stage is inconclusive (exit 2), not a violation
+    (cd .. && timeout 900 $BIN $ID --fuzz-artifact fuzz/$f); r=$?
+    if [ $r -eq 124 ]; then echo "INCONCLUSIVE: replay of fuzz/$f did not finish within 900 s" 1>&2; rc=2; break; fi
+    [ $r -ne 0 ] && rc=$r
     [ $rc -ne 0 ] && break
 done
 (cd .. && $BIN $ID --add-fuzz-evidence "{\"target\":\"prop\",\"engine\":\"libFuzzer -fork=8, ASan\",\"seconds\":$((t1-t0)),\"execs_done\":${execs:-0},\"coverage_edges\":${cov:-0},\"corpus_size\":$units,\"seed\":$SEED}")
